@@ -100,7 +100,7 @@ def n2():
     return pygaps.Adsorbate.find("nitrogen")
 
 
-def custom_adsorbate(name="verif_gas", with_props=True):
+def custom_adsorbate(name="verif_gas", with_props=True, store=True):
     """An adsorbate without backend; user properties chosen to be mutually consistent
     (rho_mass = M * rho_molar) and numerically 'generic' so swapped constants show."""
     import pygaps
@@ -118,17 +118,23 @@ def custom_adsorbate(name="verif_gas", with_props=True):
             enthalpy_vaporisation=7.7,
             surface_tension=9.1,
         )
-    return pygaps.Adsorbate(name, store=False, **props)
+    for a in pygaps.ADSORBATE_LIST:
+        if a.name == name:
+            return a
+    return pygaps.Adsorbate(name, store=store, **props)
 
 
-def custom_material(name="verif_mat", density=1.737, molar_mass=419.3):
+def custom_material(name="verif_mat", density=1.737, molar_mass=419.3, store=True):
     import pygaps
     props = {}
     if density is not None:
         props["density"] = density
     if molar_mass is not None:
         props["molar_mass"] = molar_mass
-    return pygaps.Material(name, store=False, **props)
+    for m in pygaps.MATERIAL_LIST:
+        if m.name == name:
+            return m
+    return pygaps.Material(name, store=store, **props)
 
 
 def ratio_of(out, inp):
